@@ -295,7 +295,7 @@ def derivation(draw, spec):
                               "contain": any((b in n or n in b) and n != b for n in names + [l for l in lhs])})
                 cur = base
             elif kind == "append":
-                if len(cur["eqs"]) != 1 or cur["eqs"][0][2][0] != "bin" or cur["eqs"][0][2][1] != "+":
+                if len(cur["eqs"]) != 1 or cur["eqs"][0][2][0] != "bin" or cur["eqs"][0][2][1] != "+" or cur.get("suffix"):
                     continue
                 base = copy.deepcopy(cur)
                 ast = base["eqs"][0][2]
@@ -324,7 +324,9 @@ def derivation(draw, spec):
                 steps.append({"kind": "remove", "base": base, "edit": {"remove": [term]}, "vars": {}, "contain": False})
                 cur = base
             elif kind == "add":
-                if len(cur["eqs"]) < 2:
+                # (an earlier `remove` step keeps a textual summand behind one equation of the current definition: the
+                #  bookkeeping of which variables are still used does not see it)
+                if len(cur["eqs"]) < 2 or cur.get("suffix"):
                     continue
                 base = copy.deepcopy(cur)
                 last = base["eqs"].pop()
